@@ -333,6 +333,9 @@ macexGetMacros()
  
 static AbSynList abActive;	/* Id-s where the expansions occured. */
 static AbSynList macActive;	/* Bodies of active macros. */
+static int	 macApplyDepth;	/* Macro function applications in progress. */
+
+#define MAC_MAX_APPLY_DEPTH	200
  
 /*
  * Forward declarations
@@ -365,6 +368,7 @@ macroExpand(AbSyn ab)
  
 	abActive = 0;
 	macActive = 0;
+	macApplyDepth = 0;
  
 	initMacDef();
 
@@ -548,9 +552,18 @@ macApply(AbSyn ab)
  
 	if (n != abArgc(params))
 		comsgError(ab, ALDOR_E_MacBadArgc);
+	else if (macApplyDepth >= MAC_MAX_APPLY_DEPTH) {
+		/*
+		 * A macro function whose expansion applies a macro function
+		 * again and again (e.g. f(x) ==> x(x) used as f(f)) is not
+		 * seen by the check in macId: no macro body is active here.
+		 */
+		comsgError(ab, ALDOR_E_MacInfinite, "macro functions nested too deeply");
+	}
 	else {
 		MacDefScope mds;
 		n = abArgc(params);
+		macApplyDepth++;
  
 		for (i = 0; i < n; i++) {
 			AbSyn	param = abArgv(params)[i];
@@ -581,6 +594,7 @@ macApply(AbSyn ab)
 		popMacScope(mds);
  
 		for (i = 0; i < n; i++) popMacDef();
+		macApplyDepth--;
  
 		abFreeNode(ab0);
 		abFreeNode(maclam);
